@@ -1,4 +1,5 @@
 import PrimitivModel.Analysis.Scalar
+import Mathlib.Algebra.Order.BigOperators.Group.List
 import PrimitivModel.Lemmas.ArithIndex
 import PrimitivModel.Props.C01.Arith
 /-
@@ -121,14 +122,40 @@ theorem convPos32_wrap_witness :
 /-- where the two computations agree: every padding below 2^31 with positions below 2^31 -/
 example : convPos32 2 3 2 1 1 = convPos 2 3 2 1 1 := by decide
 
-/-- `conv2d_spec` in the textbook form `y[o] = Σ_k xpad[o·s − p + (K−1−k)·d] · w[k]` (the reflection
-`k = K−1−w` of the window loops); stated, not proved. -/
-def conv2d_spec_full : Prop :=
-  ∀ (D : ConvDims) (x w : Buf ℚ) (junk : ℚ), D.yShift = D.yc * (D.yw * D.yh) →
-    ∀ s ∈ D.outer, conv2dFw 0 D x w junk (convCell D s)
-      = ((range3 D.xc D.ww D.wh).map fun r =>
-          let t : ConvIt := ⟨s.1, s.2.1, s.2.2.1, s.2.2.2, r.1, D.ww - 1 - r.2.1, D.wh - 1 - r.2.2⟩
-          if D.valid t then x (D.xa t) * w (s.1 * D.wShift + (((s.2.1 * D.xc + r.1) * D.ww + r.2.1) * D.wh + r.2.2)) else 0).sum
+section conv2d_textbook
+variable {α : Type} [CommRing α]
+
+/-- the iteration of output cell `s` at input channel `c` and window cell `(wx, wy)` -/
+def convIt (s : Nat × Nat × Nat × Nat) (c wx wy : Nat) : ConvIt := ⟨s.1, s.2.1, s.2.2.1, s.2.2.2, c, wx, wy⟩
+
+/-- `conv2d_spec` in the textbook form (the window loops reflected, `k = K−1−w`):
+`y[i0,i1,o] = Σ_{c,k1,k0} xpad[i0·s0 + (K0−1−k0)·d0 − p0, i1·s1 + (K1−1−k1)·d1 − p1, c] · w[k0,k1,c,o]` —
+the kernel element `w[k]` meets the input at the mirrored offset `K−1−k`: a true convolution, not a correlation.
+(`D.valid` is "the position lies inside x", `D.xa` its column-major address.) -/
+theorem conv2d_spec_textbook (D : ConvDims) (x w : Buf α) (junk : α) (hY : D.yShift = D.yc * (D.yw * D.yh))
+    {s : Nat × Nat × Nat × Nat} (hs : s ∈ D.outer) :
+    conv2dFw 0 D x w junk (convCell D s)
+      = ∑ c ∈ range D.xc, ∑ k1 ∈ range D.ww, ∑ k0 ∈ range D.wh,
+          if D.valid (convIt s c (D.ww - 1 - k1) (D.wh - 1 - k0)) then
+            x (D.xa (convIt s c (D.ww - 1 - k1) (D.wh - 1 - k0)))
+              * w (s.1 * D.wShift + (((s.2.1 * D.xc + c) * D.ww + k1) * D.wh + k0))
+          else 0 := by
+  rw [conv2d_spec D x w junk hY hs, sum_range3]
+  apply Finset.sum_congr rfl
+  intro c _
+  refine (Finset.sum_range_reflect _ _).symm.trans ?_
+  apply Finset.sum_congr rfl
+  intro k1 hk1
+  refine (Finset.sum_range_reflect _ _).symm.trans ?_
+  apply Finset.sum_congr rfl
+  intro k0 hk0
+  have e1 : D.ww - 1 - (D.ww - 1 - k1) = k1 := by have := Finset.mem_range.mp hk1; omega
+  have e0 : D.wh - 1 - (D.wh - 1 - k0) = k0 := by have := Finset.mem_range.mp hk0; omega
+  simp only [convIt, ConvDims.wa, e1, e0]
+  rfl
+example : (⟨3, 3, 1, 2, 2, 2, 2, 1, 1, 0, 0, 4, 0, 0, 1, 1, 1, 1⟩ : ConvDims).outer.length = 4 := by decide
+
+end conv2d_textbook
 
 /-! ### max_pool2d -/
 section pool
@@ -241,9 +268,49 @@ theorem logsumexp_fold (first : ℝ) (rest : List ℝ) :
   have := key rest (Real.exp first) (Real.exp_pos _)
   rwa [Real.log_exp] at this
 
-/-- the running value stays between `max x_i` and `max x_i + log n`; stated, not proved -/
-def logsumexp_bounds_full : Prop :=
-  ∀ (first : ℝ) (rest : List ℝ) (m : ℝ), (first ≤ m ∧ ∀ v ∈ rest, v ≤ m) → (first = m ∨ m ∈ rest) →
-    m ≤ lseFold realFns first rest ∧ lseFold realFns first rest ≤ m + Real.log (rest.length + 1)
+/-- the running value (and the result) of the recurrence lies between `max x_i` and `max x_i + log n`
+(`n = rest.length + 1` values; `m` is their maximum): no overflow for finite inputs -/
+theorem logsumexp_bounds (first : ℝ) (rest : List ℝ) (m : ℝ) (hle : first ≤ m ∧ ∀ v ∈ rest, v ≤ m)
+    (hmax : first = m ∨ m ∈ rest) :
+    m ≤ lseFold realFns first rest ∧ lseFold realFns first rest ≤ m + Real.log (rest.length + 1) := by
+  rw [logsumexp_fold]
+  have hnn : ∀ v ∈ rest.map Real.exp, 0 ≤ v := by
+    intro v hv
+    obtain ⟨u, _, rfl⟩ := List.mem_map.mp hv
+    exact (Real.exp_pos u).le
+  have hsum_nn : 0 ≤ (rest.map Real.exp).sum := List.sum_nonneg hnn
+  have hS : 0 < Real.exp first + (rest.map Real.exp).sum := by
+    have := Real.exp_pos first
+    linarith
+  constructor
+  · -- e^m is one of the terms
+    have hm : Real.exp m ≤ Real.exp first + (rest.map Real.exp).sum := by
+      rcases hmax with h | h
+      · rw [h]; linarith
+      · have := List.single_le_sum hnn (Real.exp m) (List.mem_map.mpr ⟨m, h, rfl⟩)
+        have := Real.exp_pos first
+        linarith
+    calc m = Real.log (Real.exp m) := (Real.log_exp m).symm
+      _ ≤ _ := Real.log_le_log (Real.exp_pos m) hm
+  · -- every term is at most e^m
+    have hub : (rest.map Real.exp).sum ≤ rest.length * Real.exp m := by
+      have h := List.sum_le_card_nsmul (rest.map Real.exp) (Real.exp m) (by
+        intro v hv
+        obtain ⟨u, hu, rfl⟩ := List.mem_map.mp hv
+        exact Real.exp_le_exp.mpr (hle.2 u hu))
+      simpa using h
+    have h1 : Real.exp first ≤ Real.exp m := Real.exp_le_exp.mpr hle.1
+    have hle' : Real.exp first + (rest.map Real.exp).sum ≤ ((rest.length : ℝ) + 1) * Real.exp m := by
+      nlinarith [Real.exp_pos m]
+    have hn : (0 : ℝ) < (rest.length : ℝ) + 1 := by positivity
+    calc Real.log (Real.exp first + (rest.map Real.exp).sum)
+        ≤ Real.log (((rest.length : ℝ) + 1) * Real.exp m) := Real.log_le_log hS hle'
+      _ = m + Real.log ((rest.length : ℝ) + 1) := by
+        rw [Real.log_mul hn.ne' (Real.exp_pos m).ne', Real.log_exp]; ring
+example : ((1 : ℝ) ≤ 2 ∧ ∀ v ∈ [(2 : ℝ), 0], v ≤ 2) ∧ ((1 : ℝ) = 2 ∨ (2 : ℝ) ∈ [(2 : ℝ), 0]) := by
+  refine ⟨⟨by norm_num, ?_⟩, Or.inr (by simp)⟩
+  intro v hv
+  simp at hv
+  rcases hv with rfl | rfl <;> norm_num
 
 end Primitiv.C02.Arith
